@@ -263,7 +263,7 @@ func (g *structGen) stmt(c sgCtx) Stmt {
 }
 
 var sgStrings = []string{"", "a", "ab", "lol", "b a", "x,y"}
-var sgStringsU = []string{"é", "aé", "日本", "a日b", "éé"}
+var sgStringsU = []string{"é", "aé", "日本", "a日b", "éé", "😀", "a😀b", "😀é日", "𝄞x", "x😀"}
 
 func (g *structGen) forIn(c sgCtx) Stmt {
 	g.kctr++
